@@ -6,7 +6,7 @@ THEOREMS = ['Feox.C02.acknowledged_record_survives_crash', 'Feox.Fmt.replay_io_o
 
 
 def run(ctx):
-    return proto_check(ctx, MODULE, THEOREMS, ['crash', 'hazard'], ['workloads=4', 'budget=8', 'hazards=3'], ['workloads=20', 'budget=40', 'hazards=20'], ['C02'], "acknowledged data did not survive a crash", [
+    return proto_check(ctx, MODULE, THEOREMS, ['crash', 'hazard'], ['workloads=4', 'budget=8', 'hazards=3', 'cflush=2'], ['workloads=20', 'budget=40', 'hazards=20', 'cflush=30'], ['C02'], "acknowledged data did not survive a crash", [
         "kernel / file system: a write either fails or lands; a completed fsync makes every earlier write durable; a crash loses or tears (512 B) any subset of the un-synced writes only",
         "TornDetect: a torn journal slot / metadata block fails its checksum or equals the old or the new image (DESIGN.md section 2) — a hypothesis, not an axiom",
         "the abstract disk (Feox.Proto.Disk) is related to bytes by the Lean reader Feox.Fmt.recoverImage, itself compared with the real recovery on every crash image of this run",
